@@ -46,33 +46,53 @@ var decoders = map[string]func(data []byte) (uint, error, any){
 		n, err := knxnet.UnpackHeader(d, &id, &tl)
 		return n, err, [2]uint16{uint16(id), tl}
 	},
-	"HostInfo":                func(d []byte) (uint, error, any) { v := &knxnet.HostInfo{}; n, e := v.Unpack(d); return n, e, v },
-	"DeviceInformationBlock":  func(d []byte) (uint, error, any) { v := &knxnet.DeviceInformationBlock{}; n, e := v.Unpack(d); return n, e, v },
-	"SupportedServicesDIB":    func(d []byte) (uint, error, any) { v := &knxnet.SupportedServicesDIB{}; n, e := v.Unpack(d); return n, e, v },
-	"ServiceFamily":           func(d []byte) (uint, error, any) { v := &knxnet.ServiceFamily{}; n, e := v.Unpack(d); return n, e, v },
-	"DescriptionBlock":        func(d []byte) (uint, error, any) { v := &knxnet.DescriptionBlock{}; n, e := v.Unpack(d); return n, e, v },
-	"UnknownDescriptionBlock": func(d []byte) (uint, error, any) { v := &knxnet.UnknownDescriptionBlock{}; n, e := v.Unpack(d); return n, e, v },
-	"ConnReq":                 func(d []byte) (uint, error, any) { v := &knxnet.ConnReq{}; n, e := v.Unpack(d); return n, e, v },
-	"ConnRes":                 func(d []byte) (uint, error, any) { v := &knxnet.ConnRes{}; n, e := v.Unpack(d); return n, e, v },
-	"ConnStateReq":            func(d []byte) (uint, error, any) { v := &knxnet.ConnStateReq{}; n, e := v.Unpack(d); return n, e, v },
-	"ConnStateRes":            func(d []byte) (uint, error, any) { v := &knxnet.ConnStateRes{}; n, e := v.Unpack(d); return n, e, v },
-	"DiscReq":                 func(d []byte) (uint, error, any) { v := &knxnet.DiscReq{}; n, e := v.Unpack(d); return n, e, v },
-	"DiscRes":                 func(d []byte) (uint, error, any) { v := &knxnet.DiscRes{}; n, e := v.Unpack(d); return n, e, v },
-	"TunnelReq":               func(d []byte) (uint, error, any) { v := &knxnet.TunnelReq{}; n, e := v.Unpack(d); return n, e, v },
-	"TunnelRes":               func(d []byte) (uint, error, any) { v := &knxnet.TunnelRes{}; n, e := v.Unpack(d); return n, e, v },
-	"RoutingInd":              func(d []byte) (uint, error, any) { v := &knxnet.RoutingInd{}; n, e := v.Unpack(d); return n, e, v },
-	"RoutingLost":             func(d []byte) (uint, error, any) { v := &knxnet.RoutingLost{}; n, e := v.Unpack(d); return n, e, v },
-	"RoutingBusy":             func(d []byte) (uint, error, any) { v := &knxnet.RoutingBusy{}; n, e := v.Unpack(d); return n, e, v },
-	"SearchReq":               func(d []byte) (uint, error, any) { v := &knxnet.SearchReq{}; n, e := v.Unpack(d); return n, e, v },
-	"SearchRes":               func(d []byte) (uint, error, any) { v := &knxnet.SearchRes{}; n, e := v.Unpack(d); return n, e, v },
-	"DescriptionReq":          func(d []byte) (uint, error, any) { v := &knxnet.DescriptionReq{}; n, e := v.Unpack(d); return n, e, v },
-	"DescriptionRes":          func(d []byte) (uint, error, any) { v := &knxnet.DescriptionRes{}; n, e := v.Unpack(d); return n, e, v },
-	"UnknownService":          func(d []byte) (uint, error, any) { v := &knxnet.UnknownService{}; n, e := v.Unpack(d); return n, e, v },
-	"Info":                    func(d []byte) (uint, error, any) { v := &cemi.Info{}; n, e := v.Unpack(d); return n, e, v },
-	"LData":                   func(d []byte) (uint, error, any) { v := &cemi.LData{}; n, e := v.Unpack(d); return n, e, v },
-	"LRaw":                    func(d []byte) (uint, error, any) { v := &cemi.LRaw{}; n, e := v.Unpack(d); return n, e, v },
-	"LBusmonInd":              func(d []byte) (uint, error, any) { v := &cemi.LBusmonInd{}; n, e := v.Unpack(d); return n, e, v },
-	"UnsupportedMessage":      func(d []byte) (uint, error, any) { v := &cemi.UnsupportedMessage{}; n, e := v.Unpack(d); return n, e, v },
+	"HostInfo": func(d []byte) (uint, error, any) { v := &knxnet.HostInfo{}; n, e := v.Unpack(d); return n, e, v },
+	"DeviceInformationBlock": func(d []byte) (uint, error, any) {
+		v := &knxnet.DeviceInformationBlock{}
+		n, e := v.Unpack(d)
+		return n, e, v
+	},
+	"SupportedServicesDIB": func(d []byte) (uint, error, any) {
+		v := &knxnet.SupportedServicesDIB{}
+		n, e := v.Unpack(d)
+		return n, e, v
+	},
+	"ServiceFamily": func(d []byte) (uint, error, any) { v := &knxnet.ServiceFamily{}; n, e := v.Unpack(d); return n, e, v },
+	"DescriptionBlock": func(d []byte) (uint, error, any) {
+		v := &knxnet.DescriptionBlock{}
+		n, e := v.Unpack(d)
+		return n, e, v
+	},
+	"UnknownDescriptionBlock": func(d []byte) (uint, error, any) {
+		v := &knxnet.UnknownDescriptionBlock{}
+		n, e := v.Unpack(d)
+		return n, e, v
+	},
+	"ConnReq":        func(d []byte) (uint, error, any) { v := &knxnet.ConnReq{}; n, e := v.Unpack(d); return n, e, v },
+	"ConnRes":        func(d []byte) (uint, error, any) { v := &knxnet.ConnRes{}; n, e := v.Unpack(d); return n, e, v },
+	"ConnStateReq":   func(d []byte) (uint, error, any) { v := &knxnet.ConnStateReq{}; n, e := v.Unpack(d); return n, e, v },
+	"ConnStateRes":   func(d []byte) (uint, error, any) { v := &knxnet.ConnStateRes{}; n, e := v.Unpack(d); return n, e, v },
+	"DiscReq":        func(d []byte) (uint, error, any) { v := &knxnet.DiscReq{}; n, e := v.Unpack(d); return n, e, v },
+	"DiscRes":        func(d []byte) (uint, error, any) { v := &knxnet.DiscRes{}; n, e := v.Unpack(d); return n, e, v },
+	"TunnelReq":      func(d []byte) (uint, error, any) { v := &knxnet.TunnelReq{}; n, e := v.Unpack(d); return n, e, v },
+	"TunnelRes":      func(d []byte) (uint, error, any) { v := &knxnet.TunnelRes{}; n, e := v.Unpack(d); return n, e, v },
+	"RoutingInd":     func(d []byte) (uint, error, any) { v := &knxnet.RoutingInd{}; n, e := v.Unpack(d); return n, e, v },
+	"RoutingLost":    func(d []byte) (uint, error, any) { v := &knxnet.RoutingLost{}; n, e := v.Unpack(d); return n, e, v },
+	"RoutingBusy":    func(d []byte) (uint, error, any) { v := &knxnet.RoutingBusy{}; n, e := v.Unpack(d); return n, e, v },
+	"SearchReq":      func(d []byte) (uint, error, any) { v := &knxnet.SearchReq{}; n, e := v.Unpack(d); return n, e, v },
+	"SearchRes":      func(d []byte) (uint, error, any) { v := &knxnet.SearchRes{}; n, e := v.Unpack(d); return n, e, v },
+	"DescriptionReq": func(d []byte) (uint, error, any) { v := &knxnet.DescriptionReq{}; n, e := v.Unpack(d); return n, e, v },
+	"DescriptionRes": func(d []byte) (uint, error, any) { v := &knxnet.DescriptionRes{}; n, e := v.Unpack(d); return n, e, v },
+	"UnknownService": func(d []byte) (uint, error, any) { v := &knxnet.UnknownService{}; n, e := v.Unpack(d); return n, e, v },
+	"Info":           func(d []byte) (uint, error, any) { v := &cemi.Info{}; n, e := v.Unpack(d); return n, e, v },
+	"LData":          func(d []byte) (uint, error, any) { v := &cemi.LData{}; n, e := v.Unpack(d); return n, e, v },
+	"LRaw":           func(d []byte) (uint, error, any) { v := &cemi.LRaw{}; n, e := v.Unpack(d); return n, e, v },
+	"LBusmonInd":     func(d []byte) (uint, error, any) { v := &cemi.LBusmonInd{}; n, e := v.Unpack(d); return n, e, v },
+	"UnsupportedMessage": func(d []byte) (uint, error, any) {
+		v := &cemi.UnsupportedMessage{}
+		n, e := v.Unpack(d)
+		return n, e, v
+	},
 }
 
 // bodyTarget maps a service id to the name of its body decoder.
